@@ -239,8 +239,8 @@ theorem c16_optionalObjectForPredicate_no_panic (e p : Env) (s : String) :
 /-! ### `proof.rs` -/
 
 theorem c16_proofContainsSet_no_panic {e : Env} (hi : Inv h e) (T : List Digest) (s : String) :
-    proofContainsSet h A Z e T ≠ .panic s :=
-  (proof_no_fault h A Z e T hi).2 s
+    proofContainsSet h e T ≠ .panic s :=
+  (proof_no_fault h e T hi).2 s
 
 example : Inv toyHash sNode := sNode_inv
 
